@@ -140,6 +140,7 @@ impl C03 {
         let mut dust: Vec<(f64, f64, String, usize)> = vec![];
         // realised hops (in amount, out amount, in denom, out denom) for valuing dust in X
         let mut executed: Vec<(u128, u128, String, String)> = vec![];
+        let margins_cell: std::cell::RefCell<Vec<(usize, f64)>> = std::cell::RefCell::new(vec![]);
         let mut ok = true;
 
         let mut run_hop = |w: &mut World, rep: &mut Reporter, pool: &str, din: &str, dout: &str, amt: u128, dust: &mut Vec<(f64, f64, String, usize)>, executed: &mut Vec<(u128, u128, String, String)>, touches_ss: &mut bool, all_cp: &mut bool| -> Option<u128> {
@@ -165,6 +166,12 @@ impl C03 {
                     }
                     if let Some((d, b)) = judge_hop(p, t, sw, rep, "round-trip fork") {
                         dust.push((d, b, sw.ask_denom.clone(), executed.len()));
+                    }
+                    // marginal price at this hop's start (stableswap hops), for valuing the dust
+                    // of earlier hops in a token that is scarce right now
+                    if let (Some(amp), Some(i), Some(j)) = (p.amp(), p.canon_index(&sw.offer_denom), p.canon_index(&sw.ask_denom)) {
+                        let before = p.canon(&t.before);
+                        margins_cell.borrow_mut().push((executed.len(), crate::ssx::marginal_price(amp, &p.info.asset_decimals, &before, i, j)));
                     }
                     got = sw.return_amount;
                     executed.push((sw.offer_amount, sw.return_amount, sw.offer_denom.clone(), sw.ask_denom.clone()));
@@ -217,6 +224,7 @@ impl C03 {
                 let gain = x1 - x0;
                 // value of the stableswap hops' permitted dust, carried to X along the realised or marginal rates, whichever is larger (x4, +2)
                 let mut allowed: f64 = 2.0;
+                let margins = margins_cell.borrow().clone();
                 for (d, _b, denom, at) in &dust {
                     // the dust sits in `denom` right after executed hop `at`; carry it to the start
                     // token along the hops realised afterwards (first matching hop = best rate)
@@ -234,7 +242,7 @@ impl C03 {
                                 // than at the hop's average rate: a stableswap hop's band is
                                 // 2 + the value of 2 offered units, i.e. it carries the marginal
                                 // price at the hop's start
-                                let marginal = dust.iter().find(|(_, _, _, at2)| *at2 == k).map(|(_, b, _, _)| ((*b - 2.0) / 2.0).max(0.0)).unwrap_or(0.0);
+                                let marginal = margins.iter().find(|(at2, _)| *at2 == k).map(|(_, m)| *m).unwrap_or(0.0);
                                 v = v * ((*o as f64) / (*i as f64)).max(marginal);
                                 cur = od.clone();
                                 from = k + 1;
@@ -258,6 +266,7 @@ impl C03 {
                     kf,
                     format!("trader ended a there-and-back trade of {amount}{start} through {:?} with {gain} more {start} than they started with", path),
                     witness(json!({"path": path, "amount": amount.to_string(), "return_chunks": chunks, "gain": gain.to_string(),
+                                   "pools_before": path.iter().filter_map(|(id, _, _)| obs.pools.get(id)).map(|p| json!({"id": p.info.pool_identifier, "type": format!("{:?}", p.info.pool_type), "decimals": p.info.asset_decimals, "fees": format!("{:?}", p.info.pool_fees), "reserves": p.info.assets.iter().map(|c| c.to_string()).collect::<Vec<_>>()})).collect::<Vec<_>>(),
                                    "stableswap_hop_dust": dust.iter().map(|(d,b,n,at)| json!({"deficit": d, "band": b, "denom": n, "after_hop": at})).collect::<Vec<_>>(),
                                    "allowed_by_known_dust": allowed,
                                    "executed_hops": executed.iter().map(|(i,o,a,b)| format!("{i}{a} -> {o}{b}")).collect::<Vec<_>>() })),
